@@ -9,6 +9,7 @@ import (
 	"math/rand"
 	"os"
 	"path/filepath"
+	"runtime/debug"
 	"strings"
 	"time"
 
@@ -63,6 +64,10 @@ type node struct {
 	family tsdb.DataFamily
 	log    queue.FanOutQueue
 	part   replica.Partition
+	// the log was destroyed by the WAL GC (expired family): partition closed, directory removed
+	destroyed bool
+	// recovered from an image whose log had been destroyed: the node opened a new, empty log
+	freshLog bool
 }
 
 func openNode(dir string) (*node, error) {
@@ -103,8 +108,14 @@ func openNode(dir string) (*node, error) {
 }
 
 func (n *node) close() {
-	n.part.Stop()
-	_ = n.part.Close()
+	// closing flushes: after a destroyed log the ack callback may store into an unmapped page (see final)
+	old := debug.SetPanicOnFault(true)
+	defer debug.SetPanicOnFault(old)
+	defer func() { _ = recover() }()
+	if !n.destroyed {
+		n.part.Stop()
+		_ = n.part.Close()
+	}
 	n.engine.Close()
 }
 
@@ -122,6 +133,27 @@ func nodeMessage(name string, seq int) []byte {
 	_, _ = w.Write(buf.Bytes())
 	_ = w.Close()
 	return w.Bytes()
+}
+
+// projData is the data side of the projection (after the log was destroyed)
+func (n *node) projData() trace.F {
+	st := n.family.GetState()
+	fseq, dseq := int64(-1), int64(-1)
+	if v, ok := st.ReplicaSequences[1]; ok {
+		fseq = v
+	}
+	snap := n.family.Family().GetSnapshot()
+	if v, ok := snap.GetCurrent().GetSequences()[1]; ok {
+		dseq = v
+	}
+	snap.Close()
+	dict := map[string]int{}
+	for _, nm := range nodeNames {
+		if id, err := n.db.MetaDB().GetMetricID("default-ns", nm); err == nil {
+			dict[nm] = int(id)
+		}
+	}
+	return trace.F{"fseq": fseq, "dseq": dseq, "dict": dict}
 }
 
 func (n *node) proj(names []string) trace.F {
@@ -185,18 +217,20 @@ type nodePoint struct {
 	gcons  int64
 	gack   int64
 	cgMeta []byte // the group meta page at the image point (pristine copy)
+	// the log directory did not exist any more (destroyed by the WAL GC)
+	destroyed bool
 }
 
 type nodeRun struct {
 	idxStore string
-	rec    *trace.Recorder
-	n      *node
-	names  []string // name of entry seq
-	lines  [][]byte
-	points []nodePoint
-	imgDir string
-	nimg   int
-	image  bool
+	rec      *trace.Recorder
+	n        *node
+	names    []string // name of entry seq
+	lines    [][]byte
+	points   []nodePoint
+	imgDir   string
+	nimg     int
+	image    bool
 }
 
 func (r *nodeRun) snapshot(label string) {
@@ -208,6 +242,10 @@ func (r *nodeRun) snapshot(label string) {
 	if err := kvwrap.CopyDir(filepath.Join(r.n.dir, "data"), filepath.Join(d, "data")); err != nil {
 		return
 	}
+	if r.n.destroyed {
+		r.points = append(r.points, nodePoint{dir: d, lineN: len(r.lines), label: label, destroyed: true})
+		return
+	}
 	if err := copyWAL(filepath.Join(r.n.dir, "wal"), filepath.Join(d, "wal")); err != nil {
 		return
 	}
@@ -216,10 +254,20 @@ func (r *nodeRun) snapshot(label string) {
 	r.points = append(r.points, nodePoint{dir: d, lineN: len(r.lines), label: label, gcons: g.ConsumedSeq(), gack: g.AcknowledgedSeq(), cgMeta: cg})
 }
 
+// emitProj records the projection; without the original log (destroyed, or a new empty one after recovery) only
+// the data side
+func (r *nodeRun) emitProj() {
+	if r.n.destroyed || r.n.freshLog {
+		r.rec.Emit("ProjData", r.n.projData())
+		return
+	}
+	r.rec.Emit("Proj", r.n.proj(r.names))
+}
+
 func (r *nodeRun) step(ev string, f trace.F, fn func()) {
 	r.rec.Emit(ev, f)
 	fn()
-	r.rec.Emit("Proj", r.n.proj(r.names))
+	r.emitProj()
 	r.snapshot("after-" + ev)
 }
 
@@ -283,7 +331,7 @@ func (r *nodeRun) replicaRoundWithFlush(afterWrite bool, job func()) bool {
 			time.Sleep(time.Millisecond)
 		}
 	}
-	r.rec.Emit("Proj", r.n.proj(r.names))
+	r.emitProj()
 	r.snapshot("after-RCommit")
 	return true
 }
@@ -338,7 +386,7 @@ func (r *nodeRun) indexFlush(w *kvwrap.World) {
 		w.AfterOpF = nil
 	}
 	r.rec.Emit("IdxDone", trace.F{})
-	r.rec.Emit("Proj", r.n.proj(r.names))
+	r.emitProj()
 	r.snapshot("after-IndexFlush")
 }
 
@@ -363,7 +411,7 @@ func (r *nodeRun) familyFlush(w *kvwrap.World) {
 	} else {
 		r.rec.Emit("Note", trace.F{"what": "family flush without data"})
 	}
-	r.rec.Emit("Proj", r.n.proj(r.names))
+	r.emitProj()
 	r.snapshot("after-FamilyFlush")
 }
 
@@ -407,7 +455,15 @@ func (r *nodeRun) reachableSeries(id metric.ID) map[uint32]bool {
 
 // final reads back every entry: does its name resolve, and how often is its point in the data files
 func (r *nodeRun) final(w *kvwrap.World) {
-	for r.replicaStep() {
+	// a store into the unmapped page of a destroyed log is a memory fault: an observation, not the end of the driver
+	old := debug.SetPanicOnFault(true)
+	defer debug.SetPanicOnFault(old)
+	defer func() {
+		if p := recover(); p != nil {
+			r.rec.Emit("Error", trace.F{"op": "final", "err": fmt.Sprint(p)})
+		}
+	}()
+	for !r.n.destroyed && r.replicaStep() {
 	}
 	r.metaFlush()
 	r.indexFlush(w)
@@ -450,8 +506,19 @@ func nodeHistory(rec *trace.Recorder, dir string, rng *rand.Rand, h int, image b
 	rec.Emit("Proj", n.proj(nil))
 	steps := 10 + rng.Intn(10)
 	script := []string{}
+	// the first history is scripted: entries consumed but not flushed when the WAL GC task looks at the (expired)
+	// family's log, again after more entries, and once more after the flush job acknowledged everything
+	var forced []int
+	if h == 0 {
+		forced = []int{0, 0, 40, 40, 97, 0, 40, 97, 70, 97}
+		steps = len(forced)
+	}
 	for i := 0; i < steps; i++ {
-		switch c := rng.Intn(100); {
+		c := rng.Intn(100)
+		if len(forced) > 0 {
+			c, forced = forced[0], forced[1:]
+		}
+		switch {
 		case c < 35 && len(run.names) < 8:
 			name := nodeNames[rng.Intn(len(nodeNames))]
 			seq := len(run.names)
@@ -502,6 +569,24 @@ func nodeHistory(rec *trace.Recorder, dir string, rng *rand.Rand, h int, image b
 			}
 			run.familyFlush(w)
 			script = append(script, fmt.Sprintf("flushjob(racing=%v)", racing))
+		case c >= 96:
+			// the WAL GC task looks at the partition of this (long expired) family: Sync, GC, and if no group has
+			// data the log is destroyed as writeAheadLog.destroy does (stop, close, remove the directory)
+			expired := n.part.IsExpire()
+			rec.Emit("ExpireCheck", trace.F{"expired": expired})
+			script = append(script, fmt.Sprintf("expire(%v)", expired))
+			if !expired {
+				rec.Emit("Proj", n.proj(run.names))
+				run.snapshot("after-ExpireCheck")
+				break
+			}
+			n.part.Stop()
+			_ = n.part.Close()
+			_ = os.RemoveAll(filepath.Join(n.dir, "wal"))
+			n.destroyed = true
+			rec.Emit("ProjData", n.projData())
+			run.snapshot("after-destroy")
+			i = steps
 		default:
 			run.step("SyncGC", trace.F{}, func() {
 				n.log.Sync()
@@ -547,13 +632,22 @@ func nodeHistory(rec *trace.Recorder, dir string, rng *rand.Rand, h int, image b
 		}
 		r2 := &nodeRun{rec: rec, n: n2, names: run.names[:countAppends(run.lines[:p.lineN])]}
 		rec.Emit("Recover", trace.F{})
-		rec.Emit("Proj", n2.proj(nil))
+		if p.destroyed {
+			// the recovered node opened a new, empty log: only the data side is compared
+			n2.freshLog = true
+			rec.Emit("ProjData", n2.projData())
+		} else {
+			rec.Emit("Proj", n2.proj(nil))
+		}
 		r2.final(w2)
 		n2.close()
 		*nimages++
 	}
 	for i, p := range run.points {
-		if i%3 == 2 {
+		if h == 0 && i > 0 && len(run.points[0].cgMeta) > 0 && len(p.cgMeta) > 0 {
+			// the scripted history: every image also with the group meta page of the very first image (nothing consumed)
+			recoverAt(p, &run.points[0])
+		} else if i%3 == 2 {
 			// an earlier image whose group meta page exists (taken from the pristine copy: recovering
 			// an image modifies its directory, so this variant runs first)
 			for j := rng.Intn(i); j < i; j++ {
